@@ -370,7 +370,7 @@ func firstDiff(a, b string) string {
 			y = lb[i]
 		}
 		if x != y {
-			return fmt.Sprintf("first difference at line %d (of %d resp. %d lines):\n  A: %s\n  B: %s", i+1, len(la), len(lb), trunc(x, 600), trunc(y, 600))
+			return fmt.Sprintf("first difference at line %d (of %d resp. %d lines):\n  A: %s\n  B: %s", i+1, len(la), len(lb), printable(trunc(x, 600)), printable(trunc(y, 600)))
 		}
 	}
 	return "no differing line"
@@ -405,6 +405,15 @@ func diffSets(a, b []string) string {
 		fmt.Fprintf(&sb, "  %s: %s\n", side, trunc(k, 500))
 	}
 	return sb.String()
+}
+
+func printable(s string) string {
+	for _, r := range s {
+		if r < ' ' && r != '\t' || r == 0xFFFD {
+			return fmt.Sprintf("%q", s)
+		}
+	}
+	return s
 }
 
 func trunc(s string, n int) string {
